@@ -47,6 +47,14 @@ BUILT = {
    tech="exhaustive enumeration of the shuffle's decision space through a scripted RngCore: all n! index scripts (n<=7 quick, 8 thorough) must map bijectively onto S_n and coincide with the library shuffle of the submission order; deviation-bounded scripts (<=2 non-zero answers) up to n=64; every batch content word over {limit, market, cancel, modify} x assets under every script",
    text="Exact replacement for the statistical test: through the real Env::step / MarketEnv::step with a generator whose every answer is scripted. (a) all index scripts for n=2..7: script -> processing order is a bijection onto S_n, equal to rand's own shuffle of the submission order, with exactly n-1 draws; (b) n up to 64 with <=2 non-zero answers: equal to the library shuffle, all distinct, every item reaches the pivot position by the first draw alone; (c) the order is the same function of the script for every batch content (kinds, assets, submission order); (d) same script twice -> same order. If the implementation stops being a product of independent bounded draws the check degrades to necessary conditions (determinism, content independence, an information-theoretic bound on consumed generator bits) and says so.",
    note="Trusted base: rand's bounded uniform draws are uniform and independent given a uniform generator. The property's own sampling test is not used."),
+ "C16": dict(cat="model_checking", engine="agentsx", ref="§3 C16",
+   tech="exhaustive enumeration of a configuration grid (agent type x tick 1..10 x probabilities x sigma x traders x start book x single/multi asset) crossed with deviation-bounded scripted generator answers (default stream + every placement of <=2 extreme answers in the first N draws of each update, 3 rounds); plus a bounded enumeration of seeds",
+   text="Each agent group is updated alone, in an environment that also holds foreign orders, under a scripted RngCore: the default stream plus every placement of up to two extreme words (0, all-ones, threshold-adjacent) among the first N draws of an update, in each of three consecutive update+step rounds, over the full configuration grid. Orders submitted during update and cancellations taking effect in the following step are judged against the statement (grid, range / side of observed mid, volume, trader ids, own active orders only, one live order per random agent, probability 0 never / >=1 always, no abort). Long default-stream runs over seeds 0..15 are a bounded enumeration of seeds and are labelled as such.",
+   note="Deviation bound 2 and N scripted draws per update; seeds are an unbounded domain (enumerated 0..15 only)."),
+ "C17": dict(cat="model_checking", engine="agentsx/c17", ref="§3 C17",
+   tech="exhaustive enumeration of all mid-price paths with moves in {-2..2} ticks up to a length bound (harness re-quotes a deep market), crossed with parameter grid and scripted per-trader decision draws; oracle recomputes M; mirrored-run differential",
+   text="The harness imposes every mid-price path over moves {-2,-1,0,+1,+2} ticks up to the stated length and scripts the generator of the judged update (default, all-zero, all-ones, mid, and with order ratio 0 every combination of {0, p-eps, p+eps, 1-eps} per trader). M is recomputed from observed mids; at saturation exactly one market (and limit) order per trader on the side of sign(M), nothing at M = 0, action iff draw < |p| otherwise; the same script on the mirrored path must give the mirrored order flow.",
+   note="Trusted: the documented recurrence for M; lognormal price offsets are only checked through the mirror differential."),
  "C12": dict(cat="model_checking", engine="seqx+envx", ref="§3 C12",
    tech="exhaustive bounded-depth enumeration with on- and off-grid prices offered to create, create_and_place and modify at every point of every history; grid monitor",
    text="Ticks 2,3,5,10 with off-grid neighbours of grid prices offered to every creating and modifying entry point at every point of every history to the stated depth; rejected creations must leave the snapshot untouched; every resting price on the grid; published levels account for all resting volume in range.",
